@@ -114,6 +114,12 @@ def rng_n(rq):
 def request(rq):
     t = rq[0]
     C = pg.Coalescent
+    if t == 'RLocusConfigReal':
+        # counts that are not Python ints (floats strictly between two integers, NumPy scalars): the same guards apply to the value given
+        cv = lambda x: np.int64(x[1]) if isinstance(x, list) and x[0] == 'np' else x
+        if len(rq) > 4 and rq[4] == 'statistic':
+            return lambda: C(n=3, loci=pg.LocusConfig(n=cv(rq[1]), n_unlinked=cv(rq[2]), recombination_rate=rq[3])).tree_height.mean
+        return lambda: (pg.LocusConfig(n=cv(rq[1]), n_unlinked=cv(rq[2]), recombination_rate=rq[3]), 0.0)[1]
     if t == 'RLocusConfig': return lambda: (pg.LocusConfig(n=rq[1], n_unlinked=rq[2], recombination_rate=rq[3]), 0.0)[1]
     if t == 'RRecombinationKeyword' and len(rq) > 2:
         # the LocusConfig object has ALREADY been used (validly) by another Coalescent, or its attribute is reassigned after use
